@@ -53,6 +53,9 @@ def run(ctx) -> None:
     from . import c18 as _c18
     _c18._check_repetitions(ctx)
     _c18._check_suffix_optimisation(ctx)
+    ctx.rule("DEREF", "C++/Go: operands of !, &&, ||, +, -, implication and quantifier conditions go through the dereference-if-optional helper", floor=13)
+    for t in ("cpp", "golang"):
+        transp.check_deref(ctx, t, "DEREF")
     ctx.rule("JOINED", "formatted strings: literal parts escaped exactly once, interpolation-specific escaping only where the target needs it (six targets)", floor=10)
     for t in JOINED_TABLE:
         _check_joined_str(ctx, t)
